@@ -120,6 +120,7 @@ inline char const* to_cstring(Outcome o)
 struct ScriptedShared
 {
     ParticleId gamma, electron, positron;
+    ParticleId proton;  // optional 4th particle (LoopConfig::with_proton)
     double subcut_energy{0.01};  // < electron production cut in "mat"
     // which outcomes are offered (menu order = choice index), per incident particle
     std::vector<Outcome> menu;
@@ -158,7 +159,7 @@ inline constexpr int bk_num_outcomes = 8;
 
 inline int particle_kind(ScriptedShared const& s, ParticleId p)
 {
-    return p == s.gamma ? 0 : p == s.electron ? 1 : 2;
+    return p == s.gamma ? 0 : p == s.electron ? 1 : (p == s.positron || !s.proton) ? 2 : 3;
 }
 
 //! Feasible outcomes for (particle, energy), in menu order
@@ -758,6 +759,8 @@ struct LoopConfig
                               Outcome::absorb_subcut_positron};
     double lowest_electron_energy{0.02};
     double fixed_step{0};  // PhysicsParamsOptions::fixed_step_limiter (0: off)
+    // 4th particle: proton (positive, NOT an antiparticle, no MSC model): primary kind 3
+    bool with_proton{false};
     bool bookkeeping{false};
     std::vector<StepActionOrder> probes;  // orders at which a ProbeAction is inserted
     // scoring variants (C17)
@@ -791,7 +794,7 @@ struct LoopProblem
     std::shared_ptr<ActionDiagnostic> action_diag;
     std::shared_ptr<StepDiagnostic> step_diag;
     std::shared_ptr<CoreParams const> core;
-    ParticleId gamma, electron, positron;
+    ParticleId gamma, electron, positron, proton;
     MaterialId mat, vacuum;
     ActionId along_step_id, boundary_id, tracking_cut_id, discrete_select_id;
     std::map<int, std::string> action_labels;
@@ -811,7 +814,7 @@ struct LoopProblem
                     std::array<double, 3> dir, unsigned event = 0) const
     {
         Primary p;
-        p.particle_id = kind == 0 ? gamma : kind == 1 ? electron : positron;
+        p.particle_id = kind == 0 ? gamma : kind == 1 ? electron : kind == 2 ? positron : proton;
         p.energy = units::MevEnergy{energy};
         p.position = {pos[0], pos[1], pos[2]};
         p.direction = {dir[0], dir[1], dir[2]};
@@ -867,7 +870,12 @@ inline std::unique_ptr<LoopProblem> make_loop_problem(LoopConfig const& cfg)
                         ElementaryCharge{-1}, stable_decay_constant});
         defs.push_back({"positron", pdg::positron(), MevMass{electron_mass_mev},
                         ElementaryCharge{1}, stable_decay_constant});
+        if (cfg.with_proton)
+            defs.push_back({"proton", pdg::proton(), MevMass{938.27208816}, ElementaryCharge{1},
+                            stable_decay_constant});
         P->particle = std::make_shared<ParticleParams>(std::move(defs));
+        if (cfg.with_proton)
+            P->proton = P->particle->find(pdg::proton());
         P->gamma = P->particle->find(pdg::gamma());
         P->electron = P->particle->find(pdg::electron());
         P->positron = P->particle->find(pdg::positron());
@@ -912,6 +920,7 @@ inline std::unique_ptr<LoopProblem> make_loop_problem(LoopConfig const& cfg)
         P->shared->gamma = P->gamma;
         P->shared->electron = P->electron;
         P->shared->positron = P->positron;
+        P->shared->proton = P->proton;
         P->shared->menu = cfg.menu;
         P->shared->bookkeeping = cfg.bookkeeping;
         PhysicsParams::Input pin;
@@ -954,6 +963,9 @@ inline std::unique_ptr<LoopProblem> make_loop_problem(LoopConfig const& cfg)
             add("script-positron", P->positron, cfg.xs_electron, true, false,
                 charged_eloss ? cfg.dedx : 0);
         }
+        if (cfg.with_proton)
+            add("script-proton", P->proton, cfg.xs_electron, true, false,
+                charged_eloss ? cfg.dedx : 0);
         P->physics = std::make_shared<PhysicsParams>(std::move(pin));
 
         CoreParams::Input inp;
